@@ -20,6 +20,7 @@ import AbraModel.Drv.Sem
 import AbraModel.Drv.Compile
 import AbraModel.Drv.TryLower
 import AbraModel.Drv.Analysis
+import AbraModel.Drv.Pending
 import AbraModel.Drv.Arr
 import AbraModel.Drv.F64
 import AbraModel.Drv.Opt
@@ -71,6 +72,7 @@ def dispatch (line : String) : String :=
   | "trycompat" :: rest => handleTryCompat rest
   | "analysis" :: rest => handleAnalysis rest
   | "loopctx" :: rest => handleLoopCtx rest
+  | "pending" :: rest => handlePending rest
   | "arr" :: rest => handleArr rest
   | "f64" :: rest => handleF64 rest
   | "opt" :: rest => handleOpt rest
